@@ -411,3 +411,180 @@ Proof.
   exists a, dirF, nm, arr, d. split; [exact Hp|]. split; [exact Ha|].
   rewrite Hid, Hh. cbn [app]. apply Hd. exact Eq.
 Qed.
+
+(* ======================================================================== *)
+(* D. dispatching one parameter message to the tree = SaveModel.set_elem       *)
+(* ======================================================================== *)
+From RtoscV Require Import Save.TopoEdges Ports.DecProofs.
+
+Lemma idx_of_nodup : forall ps i q, NoDup ps -> nth_error ps i = Some q -> idx_of ps q = i.
+Proof.
+  induction ps as [|p r IH]; intros i q Hnd E; [destruct i; discriminate|].
+  inversion Hnd as [|? ? Hnot Hnd']; subst. destruct i as [|i]; cbn in E |- *.
+  - inversion E; subst. rewrite (proj2 (streqb_true q q) eq_refl). reflexivity.
+  - destruct (str_eqb p q) eqn:Eq.
+    + apply streqb_true in Eq. subst q. exfalso. apply Hnot. eapply nth_error_In. exact E.
+    + f_equal. apply IH; assumption.
+Qed.
+
+Lemma forallb_map' : forall A B (f : A -> B) (g : B -> bool) l, forallb g (map f l) = forallb (fun x => g (f x)) l.
+Proof. induction l as [|x l IH]; cbn; [reflexivity|]. rewrite IH. reflexivity. Qed.
+
+Lemma paths_app : forall t, map p_path (app_of_tree t) = fpaths (flat_root t).
+Proof. intros t. unfold app_of_tree, fpaths. rewrite map_map. reflexivity. Qed.
+
+Lemma port_at_app : forall t i f, nth_error (flat_root t) i = Some f ->
+  port_at (app_of_tree t) i = resolve (fpaths (flat_root t)) f.
+Proof.
+  intros t i f E. unfold port_at, app_of_tree. apply nth_error_nth.
+  rewrite nth_error_map, E. reflexivity.
+Qed.
+
+Lemma sm_atoi : forall s acc, SM.atoi_acc acc s = MatchModel.atoi_acc acc s.
+Proof.
+  induction s as [|c s IH]; intros acc; [reflexivity|]. cbn [SM.atoi_acc MatchModel.atoi_acc].
+  change (SM.is_digit c) with (isdigit c). destruct (isdigit c); [|reflexivity].
+  rewrite IH. f_equal. lia.
+Qed.
+
+Lemma boils_idx_leaf : forall nm n d k,
+  Z.to_nat (SM.boils_idx (cenv nm (Some n) d) (nm ++ dec (Z.of_nat k))) = k.
+Proof.
+  intros nm n d k. unfold SM.boils_idx. cbn [cenv SM.p_hash SM.p_name is_some].
+  rewrite SP.skipn_length_app.
+  destruct (atoi_dec (Z.of_nat k) [] ltac:(lia) eq_refl) as (Ha & _ & Hd).
+  rewrite app_nil_r in Ha, Hd.
+  assert (Hs : SM.skip_nondigit (dec (Z.of_nat k)) = dec (Z.of_nat k)).
+  { destruct (dec (Z.of_nat k)) as [|c r]; [reflexivity|]. cbn in Hd |- *.
+    change (SM.is_digit c) with (isdigit c). rewrite Hd. reflexivity. }
+  rewrite Hs, sm_atoi. unfold atoi in Ha. rewrite Ha. apply Nat2Z.id.
+Qed.
+
+(* the type tag of a value the port's argument specification accepts is one of
+   the alternatives the macro wrote behind the name *)
+Lemma store_admits : forall path arr d v v',
+  store (leaf_port path arr d) v = Some v' -> admits (leaf_args d) (tag_of v).
+Proof.
+  intros path arr d v v' H. unfold admits, leaf_args. exists (Some (kind_types (ld_kind d))).
+  split; [reflexivity|]. split; [apply kind_types_ok|].
+  unfold store in H. cbn [leaf_port p_kind] in H.
+  split.
+  - unfold tag_of. destruct v as [z|z|b|[|]|s|s]; repeat constructor; cbn; lia.
+  - destruct (ld_kind d); destruct v as [z|z|b|[|]|s|s]; try discriminate; cbn; tauto.
+Qed.
+
+(* set_elem, with the rChangeCb part named *)
+Lemma set_elem_commit : forall a st i k v,
+  set_elem a st i k v =
+  if (k <? p_len (port_at a i))%nat then
+    match store (port_at a i) v with
+    | None => None
+    | Some v' => if exists_ a st i then Some (commit a st i k v') else None
+    end
+  else None.
+Proof. reflexivity. Qed.
+
+(* a state with one value per element (ports without default are not saved and
+   not written by a savefile: nothing is asked of them) *)
+Definition shaped (a : app) (s : state) : Prop :=
+  length s = length a /\
+  forall i, (i < length a)%nat -> p_nodef (port_at a i) = false ->
+            length (val_at s i) = p_len (port_at a i).
+
+(* the leaves are made by the macros C14 models *)
+Fixpoint pt_wf (p : pt) : Prop :=
+  match p with
+  | PLeaf nm arr d => leaf_wf arr d
+  | PSub _ _ _ _ sub => (fix all (l : list pt) : Prop := match l with [] => True | x :: r => pt_wf x /\ all r end) sub
+  end.
+
+Lemma pt_wf_all : forall l,
+  (fix all (l : list pt) : Prop := match l with [] => True | x :: r => pt_wf x /\ all r end) l -> Forall pt_wf l.
+Proof. induction l as [|x r IH]; intros H; [constructor|]. destruct H. constructor; auto. Qed.
+
+Lemma descends_wf : forall id tbl dir a dirF extra nm arr d aL,
+  Forall pt_wf tbl -> descends tbl id dir a dirF extra nm arr d aL -> leaf_wf arr d.
+Proof.
+  induction id as [|j rest IH]; intros tbl dir a dirF extra nm arr d aL Hw H; [contradiction|].
+  cbn [descends] in H. destruct (nth_error tbl j) as [[nm' arr' d'|nm' enum ptr sw sub]|] eqn:E; [| |contradiction].
+  - destruct H as (_ & _ & _ & _ & _ & <- & <- & _).
+    rewrite Forall_forall in Hw. exact (Hw _ (nth_error_In _ _ E)).
+  - destruct H as (x & a' & extra' & _ & _ & _ & H).
+    rewrite Forall_forall in Hw. pose proof (Hw _ (nth_error_In _ _ E)) as Hq. cbn [pt_wf] in Hq.
+    exact (IH _ _ _ _ _ _ _ _ _ (pt_wf_all _ Hq) H).
+Qed.
+
+Section Dispatch.
+  Variable hp : list sport -> list Z * list Z.
+  Variable tid : list sport -> Z.
+  Variable t : list pt.
+  Let A := app_of_tree t.
+  Let T := to_tree hp tid (sports_of t).
+
+  (* Ports::dispatch of the message (addr, one argument) at the root with a location
+     buffer, the callbacks it invokes run in order *)
+  Definition tree_dispatch (addr : str) (v : scalar) (s : state) : option state :=
+    run_events A t [47] (rev (log (dispatch T addr (tag_of v) true 0))) v s.
+
+  Hypothesis Hnames : names_ok (sports_of t) = true.
+  Hypothesis Htree : tree_ok T.
+  Hypothesis Hwf : Forall pt_wf t.
+  Hypothesis Hpaths : NoDup (map p_path A).
+
+  Theorem dispatch_elem : forall i k v s,
+    (i < length A)%nat -> (k < p_len (port_at A i))%nat -> p_nodef (port_at A i) = false ->
+    arg_wf v -> store (port_at A i) v <> None -> shaped A s ->
+    tree_dispatch (elem_addr (port_at A i) k) v s = set_elem A s i k v.
+  Proof.
+    intros i k v s Hi Hk Hnd Hv Hst [Hlen Hsh].
+    destruct (nth_error (flat_root t) i) as [f|] eqn:Ef.
+    2:{ apply nth_error_None in Ef. unfold A, app_of_tree in Hi. rewrite map_length in Hi. lia. }
+    pose proof (port_at_app t i f Ef) as Hp. fold A in Hp.
+    assert (Hlenf : p_len (f_port f) = p_len (port_at A i)) by (rewrite Hp; reflexivity).
+    destruct (flat_root_descends t f k (nth_error_In _ _ Ef) ltac:(lia)) as (a & dirF & nm & arr & d & Hfp & Ha & Hd).
+    assert (Hstore : store (port_at A i) v = store (leaf_port (dirF ++ nm) arr d) v).
+    { rewrite Hp. unfold store, resolve. rewrite Hfp. reflexivity. }
+    destruct (store (port_at A i) v) as [v'|] eqn:Es; [|congruence]. symmetry in Hstore.
+    assert (Haddr : elem_addr (port_at A i) k = 47 :: a).
+    { rewrite Ha. rewrite Hp. unfold elem_addr, resolve. cbn [p_array p_path]. reflexivity. }
+    pose proof (store_admits _ _ _ _ _ Hstore) as Hty.
+    destruct (names_ok_sound _ Hnames) as (_ & Hdok & Hdis & _).
+    pose proof (descends_reaches _ _ _ _ _ _ _ _ _ _ _ Hd Hty) as Hr.
+    pose proof (reaches_chars _ _ _ _ Hdok Hr) as Hch.
+    (* C04: exactly the chain of callbacks along the index path runs *)
+    assert (Hlog : rev (log (dispatch T (47 :: a) (tag_of v) true 0)) = chain (f_id f) T a (tag_of v) 0 (Some [47])).
+    { assert (Hroot : root_ok T (47 :: a)).
+      { unfold root_ok. split; [exact Htree|]. cbn [strip Z.eqb Pos.eqb].
+        split; (eapply Forall_impl; [|exact Hch]; intros c Hc; apply Hc). }
+      pose proof (tree_exactly_one_leaf (f_id f) T (47 :: a) (tag_of v) 0 Hroot) as H1.
+      cbn [strip Z.eqb Pos.eqb] in H1.
+      exact (proj1 (H1 (reaches_addressed hp tid _ _ _ _ Hdis Hdok Hr))). }
+    unfold tree_dispatch. rewrite Haddr, Hlog. unfold T.
+    rewrite (run_chain hp tid A _ _ _ _ _ _ _ _ _ _ _ _ v s Hd Hdok Hty).
+    (* the switches on the way are the port's p_hard *)
+    assert (Hex : forallb (sw_on A s) (f_hard f) = exists_ A s i).
+    { unfold exists_, all_on. rewrite Hp. unfold resolve. cbn [p_hard]. rewrite forallb_map'.
+      unfold sw_on. fold A. rewrite <- (paths_app t). reflexivity. }
+    rewrite Hex, set_elem_commit, Es.
+    destruct (k <? p_len (port_at A i))%nat eqn:Ek; [|apply Nat.ltb_ge in Ek; lia].
+    destruct (exists_ A s i); [|reflexivity].
+    (* C14: the callback stores what store says *)
+    unfold leaf_cb.
+    assert (Hidx : idx_of (map p_path A) (dirF ++ nm) = i).
+    { apply idx_of_nodup; [exact Hpaths|]. unfold A at 1. rewrite paths_app. unfold fpaths.
+      rewrite nth_error_map, Ef. cbn [option_map]. rewrite Hfp. reflexivity. }
+    rewrite Hidx.
+    assert (Hlf : leaf_wf arr d) by (eapply descends_wf; eassumption).
+    assert (Hplen : p_len (leaf_port (dirF ++ nm) arr d) = p_len (port_at A i)) by (rewrite <- Hfp; exact Hlenf).
+    destruct (cb_store nm arr d (dirF ++ nm) (dirF ++ leaf_rel nm arr k) (leaf_rel nm arr k) v v' (val_at s i) k
+                Hlf Hv Hstore) as (zs & o & Hstep & Hdec).
+    - rewrite Hplen. apply Hsh; assumption.
+    - rewrite (Hsh i Hi Hnd). exact Hk.
+    - destruct arr as [n|]; [apply boils_idx_leaf|].
+      cbn [leaf_port p_len] in Hplen. lia.
+    - rewrite Hstep.
+      assert (Hj : match arr with Some _ => Z.to_nat (SM.boils_idx (cenv nm arr d) (leaf_rel nm arr k)) | None => O end = k).
+      { destruct arr as [n|]; [apply boils_idx_leaf|]. cbn [leaf_port p_len] in Hplen. lia. }
+      rewrite Hj, Hdec. reflexivity.
+  Qed.
+End Dispatch.
